@@ -104,7 +104,7 @@ func c09Build(c C09Case) (ion.SymbolTable, *refbin.SymTab, string) {
 			}
 			imps = append(imps, icat[i].Adjust(uint64(im.MaxID)))
 		}
-		return ion.NewLocalSymbolTable(imps, c.Locals), ref, ""
+		return localTable(imps, c.Locals), ref, ""
 	case "text", "binary":
 		var doc []byte
 		if c.Via == "text" {
